@@ -34,6 +34,12 @@ PINNED = {
             "_default_is_leaf", "_is_leaf_nontensor",
         ],
         "tensordict/utils.py": ["_get_leaf_tensordict"],
+        "tensordict/_lazy.py": [
+            "LazyStackedTensorDict._set_str", "LazyStackedTensorDict._set_tuple", "LazyStackedTensorDict.del_", "LazyStackedTensorDict.pop",
+            "LazyStackedTensorDict.rename_key_", "LazyStackedTensorDict._select", "LazyStackedTensorDict._exclude",
+            "LazyStackedTensorDict._flatten_keys_outplace", "LazyStackedTensorDict._key_list", "LazyStackedTensorDict.keys",
+            "_LazyStackedTensorDictKeysView.__contains__", "_LazyStackedTensorDictKeysView._keys",
+        ],
     },
     "C01": {
         "tensordict/base.py": [
@@ -42,14 +48,23 @@ PINNED = {
             "TensorDictBase.auto_batch_size_", "TensorDictBase.update", "TensorDictBase.setdefault", "TensorDictBase.pop",
             "TensorDictBase.refine_names", "TensorDictBase.create_nested", "TensorDictBase._create_nested_tuple",
             "TensorDictBase._create_nested_str", "TensorDictBase._flatten_keys_inplace", "TensorDictBase.unflatten_keys",
-            "TensorDictBase.clear", "TensorDictBase._convert_to_tensordict", "TensorDictBase.rename_",
+            "TensorDictBase.clear", "TensorDictBase._convert_to_tensordict", "TensorDictBase.rename_", "TensorDictBase._check_dim_name",
+            "TensorDictBase.set_at_", "TensorDictBase.set_", "_expand_to_match_shape",
         ],
         "tensordict/_td.py": [
             "TensorDict.names", "TensorDict._rename_subtds", "TensorDict._erase_names", "TensorDict._change_batch_size",
             "TensorDict.batch_size", "TensorDict._set_str", "TensorDict._set_tuple", "TensorDict.del_", "TensorDict.rename_key_",
             "TensorDict._exclude", "TensorDict.popitem", "TensorDict.empty",
+            # the writes into existing storage (modelled by their envelope, Model/C01Coherence.lean `writeM`)
+            "TensorDict.__setitem__", "TensorDict._set_at_str", "TensorDict._set_at_tuple", "_SubTensorDict._set_str",
         ],
-        "tensordict/utils.py": ["_set_max_batch_size"],
+        "tensordict/utils.py": ["_set_max_batch_size", "_set_item"],
+        "tensordict/_lazy.py": [
+            "LazyStackedTensorDict.names", "LazyStackedTensorDict.batch_size", "LazyStackedTensorDict.device", "LazyStackedTensorDict.insert",
+            "LazyStackedTensorDict.append", "LazyStackedTensorDict._compute_batch_size", "LazyStackedTensorDict._set_str",
+            "LazyStackedTensorDict._set_tuple", "LazyStackedTensorDict.del_", "LazyStackedTensorDict.rename_key_",
+            "LazyStackedTensorDict._rename_subtds", "LazyStackedTensorDict._has_names", "LazyStackedTensorDict._erase_names",
+        ],
     },
 }
 
